@@ -20,7 +20,10 @@ Reuse == << <<"reuse", "mse", <<3>>, <<1>>>>, <<"reuse", "bce", <<2>>, <<4>>>>, 
 (* the SAME tensor object as prediction and as target; and two tensors used in both orders by one loss object *)
 Same == << <<"same", "mse", <<3>>>>, <<"same", "bce", <<4>>>>, <<"same", "ce", <<2, 3>>>>, <<"same", "bce", <<1>>>>, <<"same", "ce", <<3, 1>>>>,
            <<"swap", "bce", <<3>>>>, <<"swap", "ce", <<2, 2>>>>, <<"swap", "mse", <<2>>>> >>
-Descs == MyCases(Descs0 \o [i \in DOMAIN Bad |-> <<"bad", Bad[i]>>] \o Reuse \o Same)
+(* forty batches of forty different sizes through one process, then the first sizes again (whatever the losses keep per *)
+(* shape - bounds, buffers - must still fit when a shape comes back after many others)                                  *)
+Many == << <<"many", "bce", 40>>, <<"many", "ce", 36>> >>
+Descs == MyCases(Descs0 \o [i \in DOMAIN Bad |-> <<"bad", Bad[i]>>] \o Reuse \o Same \o Many)
 
 Build(d) ==
   IF d[1] = "reuse"
@@ -39,11 +42,18 @@ Build(d) ==
   THEN MkCase("c12", d[2] \o "-swapped", <<In("p", d[3], FALSE), In("t", d[3], FALSE)>>, <<"prob,unit,prob", "prob,targ01,prob">>,
               <<Ins(d[2], [inst |-> 1, dim |-> 0], <<1, 2>>), Ins(d[2], [inst |-> 1, dim |-> 0], <<2, 1>>), Ins(d[2], NoPar, <<1, 2>>)>>, <<3, 4, 5>>, 0, TRUE)
        @@ [props |-> <<"nonneg", "finite">>]
+  ELSE IF d[1] = "many"
+  THEN LET n == d[3]
+           dimsOf(k) == IF d[2] = "ce" THEN <<k, 2>> ELSE <<k>>
+           ins == [j \in 1..(2 * n) |-> IF j <= n THEN In("p" \o ToString(j), dimsOf(j), FALSE) ELSE In("t" \o ToString(j - n), dimsOf(j - n), FALSE)]
+           code == [j \in 1..(n + 3) |-> LET k == IF j <= n THEN j ELSE j - n IN Ins(d[2], NoPar, <<k, n + k>>)]
+       IN MkCase("c12", d[2] \o "-many-shapes", ins, [j \in 1..(2 * n) |-> IF j <= n THEN "unit" ELSE "targ01"], code,
+                 [j \in 1..(n + 3) |-> 2 * n + j], 0, TRUE) @@ [props |-> <<"nonneg", "finite">>]
   ELSE IF d[1] = "bad"
   THEN MkCase("c12", d[2][1], <<In("p", d[2][2], FALSE), In("t", d[2][3], FALSE)>>, <<"any", "any">>,
               <<Ins(d[2][1], NoPar, <<1, 2>>)>>, <<>>, 0, TRUE)
   ELSE LET dims == IF d[1] = "ce" THEN <<d[2], d[3]>> ELSE <<d[2]>>
-       IN MkCase("c12", d[1], <<In("p", dims, d[4]), In("t", dims, FALSE)>>, <<"prob,unit,prob,unit,mil", "prob,targ01,prob,tcancel,milcopy">>,      \* mil / milcopy: magnitudes near 1e6 that differ by about 1e-3 (a loss formed from p.p - 2 p.t + t.t cancels)        \* tcancel: out-of-range and soft targets whose t(1-t) cancel exactly
+       IN MkCase("c12", d[1], <<In("p", dims, d[4]), In("t", dims, FALSE)>>, <<"prob,unit,prob,unit,mil,distrows", "prob,targ01,prob,tcancel,milcopy,unit">>,      \* distrows: every row is EXACTLY a probability distribution (sums to 1.0 in any order), with entries far below the clipping bound      \* mil / milcopy: magnitudes near 1e6 that differ by about 1e-3 (a loss formed from p.p - 2 p.t + t.t cancels)        \* tcancel: out-of-range and soft targets whose t(1-t) cancel exactly
                  <<Ins(d[1], NoPar, <<1, 2>>)>>, <<3>>, 0, TRUE) @@ [props |-> <<"nonneg", "finite">>]
 
 Cases == [i \in DOMAIN Descs |-> Build(Descs[i])]
